@@ -146,7 +146,8 @@ Definition execute (w : fworld) (m : bf_msg) : res fout :=
                           | [] => None
                           | _ => Some (m_start m, limitN, map (fun h => (h, h =? tip)) matched)
                           end in
-            let bump := match matched with [] => if fw_mem_empty w then Some filtered else None | _ => None end in
+            (* repair: script numbers follow only when nothing is pending, neither in memory nor in the store *)
+            let bump := match matched with [] => if fw_mem_empty w && negb (fw_db_pending w) then Some filtered else None | _ => None end in
             let load := match matched with [] => false | _ => fw_mem_empty w end in
             (* Peers::update_min_filtered_block_number: a different cached index drops the cached hashes *)
             let should := filtered / fw_interval w in
